@@ -249,12 +249,36 @@ impl World {
     fn pool_uid(n: u64) -> UniqueId {
         UniqueId::new(n as u32, 1, n as i64)
     }
+    /// Builds the InstanceBuilder for `b` through a mix of the builder API's entry points, chosen
+    /// from the label (so a case replays identically): constructor (`new`, `with_property_capacity`,
+    /// `empty` + `set_class`), name (`with_name` / `set_name`), class (`with_class` / `set_class`
+    /// over a placeholder), properties and children one at a time (`with_*` / `add_*`) or in
+    /// batches (`with_properties` / `add_properties`, `with_children` / `add_children`) on a builder
+    /// that may already hold some.  Whatever the mix, the builder must describe `b` (Model/Builder.v:
+    /// `script_children`, `script_props`).
     fn builder(&mut self, b: &BT) -> InstanceBuilder {
         let r = self.rref(b.label);
         self.all_labels.insert(b.label);
-        let mut ib = InstanceBuilder::new(format!("C{}", b.class))
-            .with_referent(r)
-            .with_name(format!("n{}", b.name));
+        let style = (b.label.wrapping_mul(0x9E37_79B9_7F4A_7C15) >> 17) as usize;
+        let class = format!("C{}", b.class);
+        let name = format!("n{}", b.name);
+        let mut ib = match style % 4 {
+            0 => InstanceBuilder::new(class.as_str()),
+            1 => InstanceBuilder::with_property_capacity(class.as_str(), b.props.len()),
+            2 => {
+                let mut e = InstanceBuilder::empty();
+                e.set_class(class.as_str());
+                e
+            }
+            _ => InstanceBuilder::new("Placeholder").with_class(class.as_str()),
+        };
+        ib = ib.with_referent(r);
+        if (style >> 2) % 2 == 0 {
+            ib = ib.with_name(name);
+        } else {
+            ib.set_name(name);
+        }
+        let mut props: Vec<(String, Variant)> = Vec::new();
         for (k, v) in &b.props {
             let val = match v {
                 PV::R(l) => Variant::Ref(self.rref(*l)),
@@ -265,11 +289,73 @@ impl World {
                 }
                 PV::O(n) => Variant::Int64(*n as i64),
             };
-            ib.add_property(key_name(*k).as_str(), val);
+            props.push((key_name(*k), val));
         }
+        let mut kids: Vec<InstanceBuilder> = Vec::new();
         for k in &b.kids {
-            let kb = self.builder(k);
-            ib.add_child(kb);
+            kids.push(self.builder(k));
+        }
+        // properties: a prefix one at a time, the rest in one or two batches
+        let pm = (style >> 3) % 5;
+        let cut = if props.is_empty() { 0 } else { (style >> 6) % (props.len() + 1) };
+        let tail = props.split_off(cut);
+        for (i, (k, v)) in props.into_iter().enumerate() {
+            if (pm + i) % 2 == 0 {
+                ib.add_property(k.as_str(), v);
+            } else {
+                ib = ib.with_property(k.as_str(), v);
+            }
+        }
+        match pm {
+            0 => {
+                for (k, v) in tail {
+                    ib.add_property(k.as_str(), v);
+                }
+            }
+            1 => ib.add_properties(tail.iter().map(|(k, v)| (k.as_str(), v.clone()))),
+            2 => ib = ib.with_properties(tail.iter().map(|(k, v)| (k.as_str(), v.clone()))),
+            3 => {
+                let mut t = tail;
+                let t2 = t.split_off(t.len() / 2);
+                ib = ib.with_properties(t.iter().map(|(k, v)| (k.as_str(), v.clone())));
+                ib.add_properties(t2.iter().map(|(k, v)| (k.as_str(), v.clone())));
+            }
+            _ => {
+                for (k, v) in tail {
+                    ib = ib.with_property(k.as_str(), v);
+                }
+            }
+        }
+        // children likewise
+        let cm = (style >> 10) % 5;
+        let ccut = if kids.is_empty() { 0 } else { (style >> 13) % (kids.len() + 1) };
+        let ktail = kids.split_off(ccut);
+        for (i, kb) in kids.into_iter().enumerate() {
+            if (cm + i) % 2 == 0 {
+                ib.add_child(kb);
+            } else {
+                ib = ib.with_child(kb);
+            }
+        }
+        match cm {
+            0 => {
+                for kb in ktail {
+                    ib.add_child(kb);
+                }
+            }
+            1 => ib.add_children(ktail),
+            2 => ib = ib.with_children(ktail),
+            3 => {
+                let mut t = ktail;
+                let t2 = t.split_off(t.len() / 2);
+                ib = ib.with_children(t);
+                ib.add_children(t2);
+            }
+            _ => {
+                for kb in ktail {
+                    ib = ib.with_child(kb);
+                }
+            }
         }
         ib
     }
